@@ -28,8 +28,12 @@ func (s *vSrc) Uint64() uint64 {
 
 func vNewCounter(size, maxDraws int) (*Counter[int], *vSrc) {
 	src := &vSrc{maxDraws: maxDraws}
-	return &Counter[int]{buf: make(mapset.Set[int]), cap: size, p: math.MaxUint64, rng: src}, src
+	c := NewCounter[int](size) // the package's own constructor; only the random source is replaced
+	c.rng = src
+	return c, src
 }
+
+var _ mapset.Set[int]
 
 // vK returns k with p == MaxUint64 >> k, asserting p has that form.
 func vK(p uint64) int {
@@ -76,6 +80,10 @@ func VH_distinct_Stream() {
 			vAssert(len(seen) < size, "the exact regime ends only when the buffer fills")
 		} else {
 			vCover("sampling")
+		}
+		// above capacity every Add rolls for admission
+		if pBefore < math.MaxUint64 {
+			vAssert(src.draws > d0, "above capacity every Add consumes a draw")
 		}
 		// admission coin: with p < Max the first draw decides; rejected values are evicted
 		if pBefore < math.MaxUint64 && src.draws > d0 && c.p == pBefore {
@@ -127,7 +135,7 @@ func VH_distinct_Pass() {
 }
 
 func VT_distinct_exact() {
-	c, _ := vNewCounter(8, 0)
+	c := NewCounter[int](8)
 	var cs []int
 	for _, v := range []int{5, 3, 5, 9, 3, 1, 1, 7} {
 		c.Add(v)
